@@ -143,7 +143,11 @@ func (x *Exec) inline(n *node, callee *ssa.Function, name string, args, bindings
 	st := n.st.Clone()
 	st.Vars = map[string]Value{}
 	st.Defers = nil
+	savedNode := x.curNode
 	vals, out, rg := x.runFunc(callee, args, bindings, st, n.guard, nil, false)
+	n.extra = append(n.extra, x.lastNodes...)
+	x.curNode = savedNode
+	x.VC.CurTag = savedNode
 	x.stack = x.stack[:len(x.stack)-1]
 	x.depth--
 	x.inlinePath = savedPath
